@@ -19,7 +19,9 @@ CONSTANT MaxSteps
 
 \* every special character also occurs as the only special character of a payload (a sink that looks for "some" special character before escaping)
 Payloads == { <<"LT", "b", "GT">>, <<"AMP", "APOS", "QUOT", "PLAIN">>, <<"AMP", "l", "t", ";">>, <<"MB", "LT", "CJK">>, <<"o", "k">>,
-              <<"x", "APOS", "y">>, <<"QUOT", "z">>, <<"a", "GT">>, <<"AMP">> }
+              <<"x", "APOS", "y">>, <<"QUOT", "z">>, <<"a", "GT">>, <<"AMP">>,
+              \* a tag terminator inside the payload (as a string literal it does not end the tag)
+              <<"u", "PCT", "GT", "LT", "s", "GT">> }
 
 Starts == {"lit", "bqlit", "ctxstr", "ctxhtml", "htmler", "rawlit", "rawctx", "field", "htmlfield", "mapel", "strsel", "anyel", "helper", "strs", "anys",
            "strsloop", "htmlsloop", "anysloop", "maploop", "htmlerstringer"}
